@@ -1062,7 +1062,7 @@ class Mask2D(Mask):
 
         return central_row_pixels == central_column_pixels
 
-    @cached_property
+    @property
     def circular_radius(self) -> float:
         """
         Returns the radius in scaled units of a circular mask.
